@@ -156,15 +156,19 @@ add("C17",
     "machine-checked proof in Coq (cost and guard lemmas) + resource-limited search over mutated objects")
 
 add("C19",
-    "Coq theorems over Model/Listing.v (depth-first walk, object-root test, `extensions` skipping, regex id pre-filter, glob filter, lookup via "
-    "layout path / scan / cache): for every repository tree outside the recorded known classes list_objects returns each committed id exactly "
-    "once, a glob listing = the filtered list, no staged or extension object is listed, get_object finds an id iff it is committed, purged ids are "
-    "not found, staged listing exact; the regex text is pinned to the generated constant; witness lemmas inside each class. Correspondence: "
+    "Coq theorems over Model/Listing.v (depth-first walk, object-root test, skipping of the storage root's own `extensions` directory, regex id "
+    "pre-filter, glob filter, lookup via layout path / scan / cache, purge_object with its guards and cache eviction): for every repository "
+    "tree list_objects returns each committed id exactly once (unconditional), walk = specification of object roots, a glob listing = the "
+    "filtered list, no staged or extension object is listed, get_object finds an id iff it is committed, purged ids are not found (also "
+    "through the SAME handle: the cache of a handle is sound along every history of open/get/purge/write), staged listing exact; the regex "
+    "text is pinned to the generated constant; witness lemmas inside each remaining class. Correspondence: "
     "repositories built by the real library from hostile id sets under every layout and none; after every commit/purge the on-disk tree is "
     "abstracted to a model tree and list_objects(None|glob), list_staged_objects, get_object compared inside Coq. Search: listed ids = the "
     "driver's own record as a multiset.",
     "Trusted: Coq kernel, Model/Listing.v, tree abstraction in checks/c19.py, globset behaviour on the generated subset. Known findings: id needing "
-    "a JSON escape, root named extensions, layout path occupied, stale id-path cache, '?' matching one byte.",
+    "a JSON escape, layout path occupied, '?' matching one byte. Roots named `extensions` below the storage root and the stale id-path cache - "
+    "repaired by 38fe584, 4564259 - are must-pass regression inputs; every purge is compared with the model and validate_repo must visit "
+    "exactly the committed objects.",
     "machine-checked proof in Coq (walk/lookup invariants over arbitrary trees) + correspondence on built repositories")
 
 add("C20",
